@@ -174,10 +174,20 @@ void h_gate1(void) {
     TFheGateBootstrappingParameterSet ps; *(const LweParams **)&ps.in_out_params = par;
     TFheGateBootstrappingCloudKeySet cloud; *(const TFheGateBootstrappingParameterSet **)&cloud.params = &ps;
     LweSample *ca = verif_alloc(sizeof(LweSample)); ca->a = verif_alloc((size_t)n * sizeof(Torus32));
+#ifdef KNOB_ALIAS
+    LweSample *res = ca;                                   /* bootsNOT(x, x), bootsCOPY(x, x): output object == input object */
+#else
     LweSample *res = verif_alloc(sizeof(LweSample)); res->a = verif_alloc((size_t)n * sizeof(Torus32));
+#endif
     __CPROVER_assume(ca->current_variance >= 0.0 && ca->current_variance <= 1e100);
     int32_t gk; __CPROVER_assume(gk >= 0 && gk < n); g_k = gk;
     Torus32 ca_a = ca->a[g_k], ca_b = ca->b; int32_t in_value;
+#ifdef KNOB_ALIAS
+    bootsCOPY(res, ca, &cloud);
+    __CPROVER_assert(res->a[g_k] == ca_a && res->b == ca_b, "COPY in place: unchanged");
+    bootsNOT(res, ca, &cloud);
+    __CPROVER_assert(U32(res->a[g_k]) == 0u - U32(ca_a) && U32(res->b) == 0u - U32(ca_b), "NOT in place: result == -old value exactly");
+#else
     bootsNOT(res, ca, &cloud);
     __CPROVER_assert(U32(res->a[g_k]) == 0u - U32(ca_a) && U32(res->b) == 0u - U32(ca_b), "NOT: result == -ca exactly (phase negated: decrypts to the complement)");
     bootsCOPY(res, ca, &cloud);
@@ -185,6 +195,7 @@ void h_gate1(void) {
     bootsCONSTANT(res, in_value, &cloud);
     __CPROVER_assert(res->a[g_k] == 0 && U32(res->b) == (in_value ? EIGHTH : 0u - EIGHTH) && res->current_variance == 0.0, "CONSTANT: noiseless trivial sample of +-1/8");
     __CPROVER_assert(ca->a[g_k] == ca_a && ca->b == ca_b, "input untouched");
+#endif
     VERIF_REACH();
 }
 #endif
